@@ -137,6 +137,7 @@ class FatAreaAdapter(Adapter):
         sector_links = [SectorLink()] * FAT_NUM_ENTRIES
         dirty_flags = [False] * FAT_NUM_ENTRIES
         dirty_flags[0:2] = [True, True]
+        walk_marks = [0] * FAT_NUM_ENTRIES
         for i in range(2, FAT_NUM_ENTRIES - 9):
 
             if dirty_flags[i]:
@@ -147,6 +148,10 @@ class FatAreaAdapter(Adapter):
             while True:
                 if subpath_index >= FAT_NUM_ENTRIES:
                     break
+
+                if walk_marks[subpath_index] == i:
+                    raise ConstructError("Encountered loop in FAT.")
+                walk_marks[subpath_index] = i
                 
                 value = fat_entries[subpath_index]
                 dirty_flags[subpath_index] = True
